@@ -83,6 +83,11 @@ def run_history(job: Dict[str, Any], emit, scratch: Path, tk: h5lib.Tokens):
             except Exception:
                 pass
             view = h5lib.project(rec, km, tk)["view"]
+        if k > 0 and rng.random() < 0.3:
+            # the session ends with the patch still open; a later session continues and commits it
+            # (inherited manifest extensions must survive this, too)
+            rec.close(commit=False)
+            rec = IH5MFRecord(R / "rec", rng.choice(["r+", "a"]))
         override = ""
         kw = {}
         if rng.random() < 0.4:
